@@ -24,7 +24,7 @@ def _str(rng):
 def _num(rng, depth=0):
     r = rng.random()
     if r < 0.55 or depth > 2:
-        return rng.choice(['1', '10.50', '0.001', '1,234.56', '42', '7.'])
+        return rng.choice(['1', '10.50', '0.001', '1,234.56', '42', '7.', '0', '0.00'])
     sp = rng.choice(['', ' ', '  '])
     if r < 0.70:
         return f'{_num(rng, depth + 1)}{sp}{rng.choice("+-")}{sp}{_num(rng, depth + 1)}'
